@@ -4,6 +4,7 @@ import Drive.Interp
 import Drive.Btdmp
 import Drive.Apbp
 import Drive.Icu
+import Drive.Decode
 /-!
 Line-protocol driver for the executable model: one request per line on stdin, one response per
 line on stdout.  `<unit> <op> <hex args…>`.
@@ -26,6 +27,7 @@ def stepLine (st : St) (line : String) : St × String :=
   | "apbp" :: args => let (a, out) := apbpStep st.apbp args; ({ st with apbp := a }, out)
   | "apbpsys" :: args => let (a, out) := apbpSysStep st.apbpSys args; ({ st with apbpSys := a }, out)
   | "icu" :: args => let (a, out) := icuStep st.icu args; ({ st with icu := a }, out)
+  | "dec" :: args => (st, decodeStep args)
   | [] => (st, "")
   | _ => (st, "bad-unit")
 
